@@ -181,6 +181,6 @@ def history_prefix(rng, mode, w, h):
     if k == 5:
         return [other_i, gen_picture(rng, mode, "P", ow, oh, sparse=2)[0].to_bytes()]
     if k == 6:
-        return [other_i, bytes([0, 0, 0x80 | rng.below(4)]) + rng.bytes(6)]      # a start code followed by noise: rejected or tiny
+        return [other_i, bytes([0x55, 0xAA, 0x55, 0xAA, 0x12 + rng.below(4)])]       # no start code: rejected
     same_i = gen_picture(rng, mode, "I", w, h, sparse=2)[0].to_bytes()
     return [same_i, gen_picture(rng, mode, "P", w, h, sparse=2)[0].to_bytes()]
